@@ -75,8 +75,8 @@ structure PresAll (P : FS → Prop) (env : Env) (n : Nat) : Prop where
   joinAndLeave : ∀ states name state data ctx r res st, P st.fs →
     P (joinAndLeave env n states name state data ctx r res st).2.fs
   runBranches : ∀ bs params ctx st, P st.fs → P (runBranches env n bs params ctx st).2.fs
-  runItems : ∀ proc sel input items i mc be ctx st, P st.fs →
-    P (runItems env n proc sel input items i mc be ctx st).2.fs
+  runItems : ∀ proc sel input items i mc be ctx bad st, P st.fs →
+    P (runItems env n proc sel input items i mc be ctx bad st).2.fs
 
 theorem presAll_zero (P : FS → Prop) (env : Env) : PresAll P env 0 := by
   constructor <;> intros <;> simp [runFrom, leave, handleErr, runState, joinAndLeave, runBranches, runItems] <;>
@@ -209,12 +209,14 @@ theorem pres_runBranches_step (bs : List Json) (params ctx : Json) (st : St) (h 
     · exact h
 
 theorem pres_runItems_step (proc : Json) (sel : Option Json) (input : Json) (items : List Json) (i mc : Nat)
-    (be : Rat) (ctx : Json) (st : St) (h : P st.fs) :
-    P (runItems env (n + 1) proc sel input items i mc be ctx st).2.fs := by
+    (be : Rat) (ctx : Json) (bad : Bool) (st : St) (h : P st.fs) :
+    P (runItems env (n + 1) proc sel input items i mc be ctx bad st).2.fs := by
   cases items with
   | nil => simp only [runItems]; exact h
   | cons item items =>
     simp only [runItems]
+    split
+    · exact h
     have g00 : P (if mc ≠ 0 ∧ i ≠ 0 ∧ i % mc = 0 then
         (st.waitUntil be).batch (ctxStateName ctx) (List.replicate (min mc (items.length + 1)) ((fldStr proc "StartAt").getD []))
       else st).fs := by
@@ -334,7 +336,7 @@ structure BalAll (env : Env) (n : Nat) : Prop where
   runState : ∀ states name state data ctx r st, Bal st (runState env n states name state data ctx r st).2
   joinAndLeave : ∀ states name state data ctx r res st, Bal st (joinAndLeave env n states name state data ctx r res st).2
   runBranches : ∀ bs params ctx st, BalB st (runBranches env n bs params ctx st).2
-  runItems : ∀ proc sel input items i mc be ctx st, BalB st (runItems env n proc sel input items i mc be ctx st).2
+  runItems : ∀ proc sel input items i mc be ctx bad st, BalB st (runItems env n proc sel input items i mc be ctx bad st).2
 
 theorem balAll_zero (env : Env) : BalAll env 0 := by
   constructor <;> intros <;> simp [runFrom, leave, handleErr, runState, joinAndLeave, runBranches, runItems] <;>
@@ -450,7 +452,7 @@ theorem bal_runState_step (states : Json) (name : Str) (state data ctx : Json) (
     · split
       · bal_step
       · apply BalAll.thenJoin env n ih
-        refine bal_fanout _ ?_ (ih.runItems _ _ _ _ _ _ _ _ _)
+        refine bal_fanout _ ?_ (ih.runItems _ _ _ _ _ _ _ _ _ _)
         rw [St.launch, St.fr, fs_launch_outer]
         repeat' split
         all_goals rfl
@@ -474,12 +476,14 @@ theorem bal_runBranches_step (bs : List Json) (params ctx : Json) (st : St) :
     · exact BalB.refl _
 
 theorem bal_runItems_step (proc : Json) (sel : Option Json) (input : Json) (items : List Json) (i mc : Nat)
-    (be : Rat) (ctx : Json) (st : St) :
-    BalB st (runItems env (n + 1) proc sel input items i mc be ctx st).2 := by
+    (be : Rat) (ctx : Json) (bad : Bool) (st : St) :
+    BalB st (runItems env (n + 1) proc sel input items i mc be ctx bad st).2 := by
   cases items with
   | nil => simp only [runItems]; exact BalB.refl _
   | cons item items =>
     simp only [runItems]
+    split
+    · exact BalB.refl _
     have g00 : BalB st (if mc ≠ 0 ∧ i ≠ 0 ∧ i % mc = 0 then
         (st.waitUntil be).batch (ctxStateName ctx) (List.replicate (min mc (items.length + 1)) ((fldStr proc "StartAt").getD []))
       else st) := by
@@ -502,7 +506,7 @@ theorem bal_runItems_step (proc : Json) (sel : Option Json) (input : Json) (item
             (isFailed (runFrom env n states start params ctx 0 ((st0.push (.iterStarted (ctxStateName ctx) i)).startBranch)).1)).at st0.clock) := by
           unfold St.iterEnd
           split <;> exact g1.2
-        exact (g00.trans g2).trans (ih.runItems _ _ _ _ _ _ _ _ _)
+        exact (g00.trans g2).trans (ih.runItems _ _ _ _ _ _ _ _ _ _)
       · exact g00
 
 end bstep
